@@ -254,8 +254,10 @@ def build_driver(flavour, name, bdir=None):
         if os.path.exists(out):
             return out
         for f in os.listdir(ddir):
-            if f.startswith(name + "-"):
-                os.unlink(os.path.join(ddir, f))
+            # older binaries of this driver may still be in use by a run that started earlier: keep them for an hour
+            fp = os.path.join(ddir, f)
+            if f.startswith(name + "-") and not f.endswith(".tmp") and time.time() - os.path.getmtime(fp) > 3600:
+                os.unlink(fp)
         fl = FLAVOURS[flavour]
         cmd = cxx_cmd(flavour, bdir) + [src, "-o", out + ".tmp", vhlib] + find_lib(bdir) + \
             fl["link"].split() + ["-lxml2", "-lz", "-ldl", "-lpthread"]
